@@ -114,6 +114,21 @@ def check(run):
         rd = set()
         for b in famx:
             rd |= set(n for (_bb, ow, n, _sp) in b.field_reads() if ow == adt)
+        # the walk over the slot states of the requested range runs to exhaustion: the result is returned only through the
+        # None edge of the range iterator (no early break / return)
+        for b in famx:
+            if b.is_closure:
+                continue
+            nxt = [c for c in b.calls() if c.name.rsplit("::", 1)[-1] == "next" and "btree::map::Range" in c.name and K.mentions_field(b.operand_term(c.args[0]), "slot_states")]
+            rets = [bl["id"] for bl in b.blocks if bl["term"]["k"] == "return" and bl["id"] in b.reach()]
+            if not nxt:
+                o.ok("PoolImpl::%s|walks-whole-range" % fn, "no explicit loop over the range (iterator chain): nothing can break out early", b.span, nontrivial=False)
+                continue
+            ok = len(nxt) == 1 and bool(rets)
+            if ok:
+                for rb in rets:
+                    ok = ok and any(a[0] == "is_some" and a[2] is False and K.mentions(a[1][0], lambda x: x[0] == "call" and len(x) > 3 and x[3] == nxt[0].bb) for a in G.guard_atoms(b, rb, prog))
+            o.check(ok, "PoolImpl::%s|walks-whole-range" % fn, "%s returns only after every slot state of the range was visited (gaps do not end the walk)" % fn, b.span)
         fields = set(K.adt_fields(prog, adt) or [])
         o.check(bool(fields) and rd == fields, "PoolImpl::%s|field-coverage" % fn, "%s reads every field of %s" % (fn, adt.rsplit("::", 1)[-1]), famx[0].span,
                 {"missing": sorted(fields - rd)})
